@@ -1056,6 +1056,7 @@ func main() {
 		"other threads of the node are represented by what they do under TxMutex at the points where the committing thread has released it: a listing (GetSortedMempoolRBF) + inspection right after a BlockMined / BlockUndone callback, SortingDisabled still set; true parallel execution is not driven (TxMutex serialises the pool)",
 		"a damaged mempool.dmp is a strict prefix of the file MempoolSave wrote (crash while writing in place), that file with its END marker / version / tip hash changed, a complete file of an earlier tip, or no file; bit flips INSIDE the records are not generated (the file has no checksum: such a file loads other transactions)",
 		"Go map-iteration order (batch of REPLACED records in the reject ring; ties of sort.Slice) is an input: the model adopts the observed order through ringorder / setorder, which are proved to preserve the invariants (resync_step_inv)",
+		"a single replacement whose batch of REPLACED records alone overruns the reject ring (a root with >= ringCap-1 descendants enumerated in Go map order): which records survive is map-order dependent; the pool side and the property predicate are still judged there, then the scenario ends (hit gen:replaced-batch-overruns-reject-ring)",
 		"several serializations of one txid (witness-malleated twins) are outside the theorems' id_fun: the model is told the serialization in use before every operation and every divergence is reported, the property predicate is judged on the real pool",
 	}
 	base := r.Rng
@@ -1086,7 +1087,7 @@ func main() {
 			continue // development aid: run the scenarios with this name prefix only (same PRNG streams)
 		}
 		w := runScenario(r, sc, g)
-		if w.dead {
+		if w.dead && !w.envAbort {
 			break // a goroutine is stuck inside gocoin holding TxMutex
 		}
 	}
